@@ -29,6 +29,15 @@ typedef struct fd_mapping_s {
     int events;
 } fd_mapping_t;
 
+/* What travels through the notification pipe: one record per completion or wake-up, with
+ * the key and the data in their full width (both are uintptr_t and may well be pointers).
+ * Every write is one whole record - shorter than PIPE_BUF, so it is atomic - and every
+ * read takes one whole record. */
+typedef struct {
+    uintptr_t completion_key;
+    uintptr_t data;
+} notify_record_t;
+
 struct async_runtime_s {
     struct pollfd* pollfds;
     fd_mapping_t* mappings;
@@ -212,9 +221,11 @@ int async_runtime_remove(async_runtime_t* runtime, socket_fd_t fd) {
 int async_runtime_wakeup(async_runtime_t* runtime) {
     if (!runtime || runtime->notify_pipe[1] < 0) return -1;
     
-    char byte = 1;
-    ssize_t n = write(runtime->notify_pipe[1], &byte, 1);
-    return (n == 1) ? 0 : -1;
+    /* a record like the others (completion key 0): a single byte would shift every
+     * completion record behind it */
+    notify_record_t rec = { 0, 1 };
+    ssize_t n = write(runtime->notify_pipe[1], &rec, sizeof(rec));
+    return (n == sizeof(rec)) ? 0 : -1;
 }
 
 int async_runtime_wait(async_runtime_t* runtime, io_event_t* events,
@@ -239,15 +250,17 @@ int async_runtime_wait(async_runtime_t* runtime, io_event_t* events,
         if (runtime->pollfds[i].revents) {
             /* Check if this is the notify pipe */
             if (runtime->pollfds[i].fd == runtime->notify_pipe[0]) {
-                /* Drain the pipe */
-                uint64_t val;
-                while (read(runtime->notify_pipe[0], &val, sizeof(val)) == sizeof(val)) {
+                /* Drain the pipe, as far as there is room for the records: what does not
+                 * fit stays in the pipe and is reported by the next call */
+                notify_record_t rec;
+                while (event_count < max_events &&
+                       read(runtime->notify_pipe[0], &rec, sizeof(rec)) == sizeof(rec)) {
                     if (event_count < max_events) {
                         events[event_count].fd = -1;
-                        events[event_count].completion_key = (uintptr_t)(val >> 32);
+                        events[event_count].completion_key = rec.completion_key;
                         events[event_count].context = NULL;
                         events[event_count].event_type = EVENT_READ;
-                        events[event_count].bytes_transferred = (int)(val & 0xFFFFFFFF);
+                        events[event_count].bytes_transferred = (size_t)rec.data;
                         events[event_count].buffer = NULL;
                         event_count++;
                     }
@@ -271,10 +284,10 @@ int async_runtime_wait(async_runtime_t* runtime, io_event_t* events,
 int async_runtime_post_completion(async_runtime_t* runtime, uintptr_t completion_key, uintptr_t data) {
     if (!runtime || runtime->notify_pipe[1] < 0) return -1;
     
-    uint64_t val = (((uint64_t)completion_key) << 32) | (data & 0xFFFFFFFF);
-    ssize_t n = write(runtime->notify_pipe[1], &val, sizeof(val));
+    notify_record_t rec = { completion_key, data };
+    ssize_t n = write(runtime->notify_pipe[1], &rec, sizeof(rec));
     
-    return (n == sizeof(val)) ? 0 : -1;
+    return (n == sizeof(rec)) ? 0 : -1;
 }
 
 int async_runtime_post_read(async_runtime_t* runtime, socket_fd_t fd, void* buffer, size_t len) {
